@@ -14,8 +14,9 @@ UAs == {"Mozilla/5.0 (X11; Linux x86_64)", "Mozilla/5.0 (Windows NT 10.0) Linux-
         "Mozilla/5.0 (iPad; CPU OS 15)", "iOS-App/1.0", "iPhone iPad iOS", "Mozilla/5.0 (Macintosh; Intel Mac OS X 10_15)", "Mac OS", "XMac OS XX", "Mac OSX",
         "curl/8.0", "SunOS 5.11", "Solaris", "x", "X", "Linu", "inux", "Windows"}
 Labels == {"linux", "windows", "ios", "mac os x", "chrome", "x"}
-Requests(rs) == {[hasUa |-> TRUE, ua |-> u, matched |-> m, label |-> IF m THEN l ELSE "", rs |-> rs] : u \in UAs, m \in BOOLEAN, l \in Labels}
-                  \cup {[hasUa |-> FALSE, ua |-> "", matched |-> m, label |-> IF m THEN l ELSE "", rs |-> rs] : m \in BOOLEAN, l \in Labels}
+Requests(rs) == {[hasUa |-> TRUE, ua |-> u, matched |-> m, label |-> IF m THEN l ELSE "", rs |-> rs, db |-> TRUE] : u \in UAs, m \in BOOLEAN, l \in Labels}
+                  \cup {[hasUa |-> FALSE, ua |-> "", matched |-> m, label |-> IF m THEN l ELSE "", rs |-> rs, db |-> TRUE] : m \in BOOLEAN, l \in Labels}
+                  \cup {[hasUa |-> u # "", ua |-> u, matched |-> FALSE, label |-> "", rs |-> rs, db |-> FALSE] : u \in UAs \cup {""}}
 All == UNION {Requests(rs) : rs \in 1..Len(RuleSets)}
 Init == DInit(All)
 Next == DNext(RuleSets[req.rs], DCode)
